@@ -603,7 +603,13 @@ PROPS["C10"] = _dbg(
     "equals an undebugged run of the image advanced by exactly the number of executed instructions.")
 PROPS["C11"] = _dbg(
     ["Lace.C11.bp_sorted_nodup", "Lace.C11.bp_pause_before_exec", "Lace.C11.exec_rearms",
-     "Lace.C11.no_bp_no_pause", "Lace.C11.runCommand_bps", "Lace.C11.armed_iteration_reads"],
+     "Lace.C11.no_bp_no_pause", "Lace.C11.runCommand_bps", "Lace.C11.armed_iteration_reads",
+     # whole sessions (Props/C11Trace.lean), `.break` in the assembler model (Proofs/ParseBreaks.lean)
+     "Lace.C11.bp_pause_before_exec_trace", "Lace.C11.bp_pause_before_exec_from", "Lace.C11.iter_bp_exec_reads",
+     "Lace.C11.iter_fresh", "Lace.C11.bp_removed_never_pauses_trace", "Lace.C11.bp_line_only_at_breakpoint_trace",
+     "Lace.C11.no_bp_runs_on_trace", "Lace.C11.bp_exec_preceded_by_resume", "Lace.C11.bp_fires_every_arrival",
+     "Lace.C11.break_directive_addresses", "Lace.C11.break_directive_addresses_src", "Lace.C11.parse_breaks",
+     "Lace.C11.assemble_breaks", "Lace.C11.runLoop_execs_eq_trace", "Lace.C11.nextReads_length"],
     "programs with loops incl. a one-instruction self-loop, .break before the first / between any two / after the last "
     "statement, doubled, together with labels × scripts of break add / remove / list at absolute, label and PC-offset "
     "locations interleaved with every resuming command; pause points are observable through the command/execution "
